@@ -240,6 +240,8 @@ structure Fld where
   sep : Bool := false
   sepStr : Bool := false
   opt : Bool := false        -- the member type is `Option<..>`
+  serdeAsAttr : Bool := false -- the member carries `#[serde_as(as = "..")]`
+  asOpt : Bool := false      -- … whose adapter is `Option<..>`
   hdrOpt : Bool := false     -- `impl TryFrom<&X> for http::HeaderMap` reads the member with `if let Some(value) = &headers.f`
   dur : Bool := false
 deriving Repr, Inhabited
@@ -256,6 +258,7 @@ structure Item where
   fields : List Fld := []
   variants : List Name := []
   evstream : Bool := false
+  serdeAs : Bool := false    -- the struct carries `#[serde_with::serde_as]`
   respEnum : Bool := false   -- a response enum (derives neither PartialEq nor serde): its payloads are decoded (client) / sent as Json (server)
   intoResp : Bool := false
   params : List Name := []
@@ -277,6 +280,7 @@ inductive Viol
   | privateAcross (file name : Name)
   | serde (item target : Name) (ser viaMap viaArr viaResp : Bool)
   | headerOptMismatch (item : Name)
+  | serdeAsMismatch (item member : Name)
   | nestedNoValidate (item target : Name)
   | lengthNeedsSer (item target : Name)
   | dupParam (item : Name)
@@ -367,6 +371,9 @@ def shapeViols (m : Mod) : List Viol :=
     (if it.kind == "struct".toList && hasDup (it.fields.map (·.name)) then [Viol.dupMember it.name] else []) ++
     (if it.kind == "enum".toList && hasDup it.variants then [Viol.dupMember it.name] else []) ++
     (if it.kind == "struct".toList && it.fields.any (fun fd => fd.hdrOpt && !fd.opt) then [Viol.headerOptMismatch it.name] else []) ++
+    -- attribute / type agreement: a `serde_as` adapter wraps in `Option<..>` exactly when the member type does, and the
+    -- member attribute needs `#[serde_as]` on the struct
+    (if it.kind == "struct".toList then (it.fields.filter fun fd => fd.serdeAsAttr && (fd.asOpt != fd.opt || !it.serdeAs)).map (fun fd => Viol.serdeAsMismatch it.name fd.name) else []) ++
     (if it.kind == "struct".toList && it.fields.any (fun fd => fd.sep && !fd.sepStr) then [Viol.sepNonString it.name] else []) ++
     (if it.kind == "enum".toList && it.intoResp && it.evstream then [Viol.evstreamJson it.name] else []) ++
     (if it.kind == "fn".toList && it.file == "server".toList && it.bytesBody then [Viol.serverBytesBody it.name] else []) ++
@@ -420,6 +427,7 @@ def codeIn (c : Name) (l : List String) : Bool := l.any fun s => s.toList == c
 def explains : Viol → RErr → Bool
   | .undefinedType n, e => codeIn e.code ["E0425", "E0412", "E0433", "E0422"] && e.name == n
   | .privateAcross f n, e => codeIn e.code ["E0425", "E0412", "E0433", "E0422", "E0603"] && e.file == f && e.name == n
+  | .serdeAsMismatch it _, e => e.ikind == "struct".toList && e.iname == it && codeIn e.code ["E0308", "E0277", "E0271"]
   | .headerOptMismatch it, e => e.ikind == "impl".toList && e.iname == it && codeIn e.code ["E0308"]
   | .serde it tgt ser _ _ _, e =>
       -- at the holder itself, or DOWNSTREAM at a use site (parse_response / handler / IntoResponse bodies) that needs the same bound
